@@ -32,7 +32,16 @@ pub(super) fn execute_index_seek<'a, S: GraphSnapshot + 'a>(
         }
     };
 
-    if let Some(mut node_ids) = snapshot.lookup_index(label, field, &prop_val) {
+    // The index is keyed by the typed encoding of the value, but `=` also holds between an
+    // integer and the float of the same value: look up both encodings of a numeric value.
+    let mut found = snapshot.lookup_index(label, field, &prop_val);
+    if let Some(twin) = numeric_twin(&prop_val)
+        && let Some(more) = snapshot.lookup_index(label, field, &twin)
+    {
+        found.get_or_insert_with(Vec::new).extend(more);
+    }
+
+    if let Some(mut node_ids) = found {
         // Index entries of deleted nodes are not removed at commit; never return them.
         node_ids.retain(|iid| !snapshot.is_tombstoned_node(*iid));
         node_ids.sort();
@@ -44,5 +53,22 @@ pub(super) fn execute_index_seek<'a, S: GraphSnapshot + 'a>(
         ))
     } else {
         execute_plan(snapshot, fallback, params)
+    }
+}
+
+/// The same number in the other numeric type, if it exists exactly: `Int(i)` as a float when
+/// `i` is representable as a double, `Float(f)` as an integer when `f` is integral and in range.
+fn numeric_twin(value: &nervusdb_api::PropertyValue) -> Option<nervusdb_api::PropertyValue> {
+    match value {
+        nervusdb_api::PropertyValue::Int(i) => {
+            let f = *i as f64;
+            ((f as i128) == (*i as i128)).then_some(nervusdb_api::PropertyValue::Float(f))
+        }
+        nervusdb_api::PropertyValue::Float(f) => {
+            let integral = f.is_finite() && f.fract() == 0.0;
+            let in_range = *f >= -9_223_372_036_854_775_808.0 && *f < 9_223_372_036_854_775_808.0;
+            (integral && in_range).then_some(nervusdb_api::PropertyValue::Int(*f as i64))
+        }
+        _ => None,
     }
 }
